@@ -3,7 +3,7 @@
 (* Unknown keys are never silently ignored; required keys are enforced     *)
 (* (property C06).                                                         *)
 (*                                                                         *)
-(* A parser shape is a function from key paths to nodes [kind, req, of]:   *)
+(* A parser shape is a function from key paths to nodes [kind, req, of, req_of, ord]: *)
 (*   "leaf"  an argument with a scalar value                               *)
 (*   "ns"    a mapping node with a fixed set of children: a group of dotted *)
 (*           arguments, a dataclass-typed argument, a dataclass field       *)
@@ -33,9 +33,12 @@ MetaKeys == {"__path__", "__default_config__", "__orig__"}
 ValOf(cfg, p) == IF \E e \in cfg : e.p = p THEN (CHOOSE e \in cfg : e.p = p).v ELSE "absent"
 HasValue(cfg, p) == ValOf(cfg, p) \notin {"absent", "null"}
 \* the chosen sub-command (property C17): the explicit key, else the first section for which settings were given
+\* (sections carry their declaration order in the field ord)
 SectionGiven(cfg, name) == \E e \in cfg : Len(e.p) >= 1 /\ e.p[1] = name
-Chosen(cfg) == IF HasValue(cfg, <<"subcommand">>) THEN ValOf(cfg, <<"subcommand">>)
-               ELSE IF SectionGiven(cfg, "fit") THEN "fit" ELSE IF SectionGiven(cfg, "test") THEN "test" ELSE "absent"
+GivenSections(shape, cfg) == {q \in DOMAIN shape : Len(q) = 1 /\ shape[q].kind = "sec" /\ SectionGiven(cfg, q[1])}
+Chosen(shape, cfg) == IF HasValue(cfg, <<"subcommand">>) THEN ValOf(cfg, <<"subcommand">>)
+                      ELSE IF GivenSections(shape, cfg) = {} THEN "absent"
+                      ELSE (CHOOSE q \in GivenSections(shape, cfg) : \A r \in GivenSections(shape, cfg) : shape[q].ord <= shape[r].ord)[1]
 
 (***************************************************************************)
 (* Ref                                                                     *)
@@ -68,7 +71,7 @@ Foreign(shape, cfg) == {e \in cfg : ~IsDefined(shape, cfg, e.p)}
 ItemGiven(cfg, r) == \E e \in cfg : \E i \in 1..Len(r) : r[i] = "#" /\ IsPrefix(SubSeq(r, 1, i), e.p)
 InForce(shape, cfg, r) ==
   /\ shape[r].req
-  /\ (shape[<<r[1]>>].kind = "sec" => Chosen(cfg) = r[1])
+  /\ (shape[<<r[1]>>].kind = "sec" => Chosen(shape, cfg) = r[1])
   /\ ((\E i \in 1..Len(r) : r[i] = "#") => ItemGiven(cfg, r))                 \* fields of a list item are required once the item exists
 ClsGiven(cfg, q) == \E e \in cfg : IsPrefix(q, e.p) /\ e.v # "null"
 ReqParamsAt(shape, cfg, q) == LET cls == ClassAt(cfg, q) IN IF ~ClsGiven(cfg, q) THEN {} ELSE
@@ -77,7 +80,7 @@ ReqParams(shape, cfg) == UNION {ReqParamsAt(shape, cfg, q) : q \in {x \in DOMAIN
 Missing(shape, cfg) ==
   {r \in DOMAIN shape : shape[r].kind \in {"leaf", "cls"} /\ InForce(shape, cfg, r) /\
        (IF shape[r].kind = "cls" THEN ~ClsGiven(cfg, r)
-        ELSE IF r = <<"subcommand">> THEN Chosen(cfg) = "absent"
+        ELSE IF r = <<"subcommand">> THEN Chosen(shape, cfg) = "absent"
         ELSE ~HasValue(cfg, r))}
   \cup {r \in ReqParams(shape, cfg) : ~HasValue(cfg, r)}
 Outcome(shape, cfg) == IF Foreign(shape, cfg) # {} \/ Missing(shape, cfg) # {} THEN "err" ELSE "ok"
@@ -87,7 +90,7 @@ Outcome(shape, cfg) == IF Foreign(shape, cfg) # {} \/ Missing(shape, cfg) # {} T
 (***************************************************************************)
 \* get_subcommands:721-727 + handle_subcommands: the sections of the sub-commands that were NOT chosen are deleted
 \* before validation, with whatever they contain.
-AfterSelection(shape, cfg) == {e \in cfg : ~(Len(e.p) >= 1 /\ <<e.p[1]>> \in DOMAIN shape /\ shape[<<e.p[1]>>].kind = "sec" /\ e.p[1] # Chosen(cfg))}
+AfterSelection(shape, cfg) == {e \in cfg : ~(Len(e.p) >= 1 /\ <<e.p[1]>> \in DOMAIN shape /\ shape[<<e.p[1]>>].kind = "sec" /\ e.p[1] # Chosen(shape, cfg))}
 \* check_values: _find_action(key) / _is_branch_key(key): a key is fine when it is an action's dest or a PATH prefix
 \* ("g" of "g.a") of one; keys below a typed argument are checked by that argument's own (nested) parser
 AlgForeign(shape, cfg) == Foreign(shape, AfterSelection(shape, cfg))
